@@ -262,6 +262,13 @@ CLAIMED['C18'] = dict(
              "symbolic execution (pyvc, loops unrolled) -- a bounded stand-in, labelled as such and not counted as proved")
 
 NA = {
+ 'C08': "No contract within reach can express or decide it: the round trip is the functional correctness of the composition "
+        "tokenizer . parser . default walker database . renderer . default text database on the image of the encoder, for ~1230 "
+        "table entries and every neighbour pair; it is not a property of one call or one data structure, and a contract that "
+        "could carry it would be a full denotational semantics of parser and renderer. What this technique can say about the "
+        "two tables (each bare-macro encoder value has a text-database row rendering the original character) is a data "
+        "cross-check, not the property; running the round trip over the alphabet with run-time-checked contracts would be "
+        "testing under another name. See DESIGN.md section 6.",
 }
 DEFAULT_NA = "check not built yet (work in progress; see DESIGN.md section 5 for the planned contracts)"
 
